@@ -1,5 +1,6 @@
 mod core;
 mod hist;
+mod model;
 mod hostile;
 mod net;
 mod ops2;
